@@ -122,7 +122,7 @@ def run(ctx):
         j["runs"] = [{"method": m, "pathsname": g, "filename": "f", "new_instance": ni, "clock": MENU[ti], "abort": False} for g, ni, ti, m in h]
         jobs.insert(k, j)
     res = pmap(ctx, groups.run_history, jobs, chunksize=2)
-    lits, idx = [], []
+    lits, idx, stale = [], [], []
     for i, (j, r) in enumerate(zip(jobs, res)):
         raised = bool(r["setup_exc"]) or any(o["exc"] and not run_["abort"] for o, run_ in zip(r["runs"], j["runs"])) or len(r["runs"]) != len(j["runs"])
         runs_l = listlit(j["runs"], lambda x: f"(mkRun {gname(x['pathsname'])} {blit(x['new_instance'])} (mkTime {' '.join(str(v) for v in x['clock'])}) {blit(x['abort'])})")
@@ -142,6 +142,12 @@ def run(ctx):
                         _, st3, sfx3 = parse_dir("archive/g0/" + nm)
                         names.append(f"mkDir {listlit(st3)} {'None' if sfx3 is None else '(Some %d%%nat)' % sfx3}")
                 listings.append("[" + "; ".join(names) + "]")
+                # a run that kept no data (fast_forward / next without collect) is still the group's latest run: ':last' must not
+                # quietly resolve to an older run that did keep data
+                vlast = (o.get("inspect") or {}).get("last")
+                if vlast and not vlast.startswith("ERR") and run_["method"] not in ("collect_paths", "collect_by_line") and not run_["abort"] \
+                        and os.path.basename(os.path.normpath(vlast)).split(".")[0] != os.path.basename(os.path.normpath(ms[0]["run_dir"])).split(".")[0]:      # (another second: how ':last' orders the runs of one second is not C10's subject)
+                    stale.append({"history": i, "run": len(chosen) - 1, "method": run_["method"], "latest_run_dir": ms[0]["run_dir"], "last_resolved_to": vlast})
                 for key, acc in (("last", lasts), ("first", firsts)):
                     v = (o.get("inspect") or {}).get(key)
                     group_runs = [x for x in j["runs"][: len(chosen)] if x["pathsname"] == run_["pathsname"]]
@@ -197,6 +203,11 @@ def run(ctx):
         if r["setup_exc"] or got != want:
             rfail.append({"runs": [{k2: x[k2] for k2 in ("method", "pathsname", "filename", "inst", "clock")} for x in j["runs"]],
                           "expected_lines": want, "read": got, "exc": r["setup_exc"] or (o and o["exc"])})
+    if stale:
+        k = stale[0]["history"]
+        ctx.violation("last-skips-dataless-run", {"what": "':last' resolved to an OLDER run's data although the group's most recent run (which kept no data.csv) is the last one: "
+                                                          "the reference should fail, not answer with stale data", "case": dict(stale[0], runs=[{k2: x[k2] for k2 in ("method", "pathsname", "new_instance", "clock", "abort")} for x in jobs[k]["runs"]]),
+                                                  "histories": len({x["history"] for x in stale})})
     if rfail:
         ctx.violation("resolve-in-run", {"what": "a run whose file name is a ':last' / ':first' results reference to another group did not read that group's latest / earliest run "
                                                  "(the reference is resolved while the run is in progress; here in the same second as, or the second after, the referenced run)",
